@@ -36,6 +36,8 @@ func main() {
 			fmt.Fprintln(os.Stderr, "child:", err)
 			os.Exit(3)
 		}
+		// a child never outlives its work: at most one case with expired waits (then it stops), the others take seconds
+		time.AfterFunc(childLimit(len(cs)), func() { os.Exit(4) })
 		for _, bc := range cs {
 			rf := resultFile(os.Args[3], bc.Idx)
 			if err := runChild(bc.Case, rf); err != nil {
@@ -58,6 +60,8 @@ type batchCase struct {
 	Idx  int   `json:"idx"`
 	Case pCase `json:"case"`
 }
+
+func childLimit(n int) time.Duration { return time.Duration(100+6*n) * time.Second }
 
 func resultFile(dir string, idx int) string {
 	return filepath.Join(dir, fmt.Sprintf("result_%04d.json", idx))
@@ -110,7 +114,7 @@ func runBatch(dir string, cases []pCase, idxs []int, obs []observation) (done, r
 		}
 		b, _ := json.Marshal(bcs)
 		_ = os.WriteFile(cf, b, 0o644)
-		ctx, cancel := context.WithTimeout(context.Background(), time.Duration(60+45*len(idxs))*time.Second)
+		ctx, cancel := context.WithTimeout(context.Background(), childLimit(len(idxs))+10*time.Second)
 		cmd := exec.CommandContext(ctx, os.Args[0], "child", cf, dir)
 		var stderr bytes.Buffer
 		cmd.Stderr = &stderr
@@ -124,6 +128,9 @@ func runBatch(dir string, cases []pCase, idxs []int, obs []observation) (done, r
 			if ee, ok := err.(*exec.ExitError); ok {
 				exit = ee.ExitCode()
 			}
+		}
+		if exit == 4 {
+			timedOut = true // the child's own limit
 		}
 		es := stderr.String()
 		if len(es) > 400 {
